@@ -23,19 +23,30 @@ HYPER = 2715648
 
 
 class Spec:
-    def __init__(self, start, tier, kmax, ms_events=False):
+    def __init__(self, start, tier, kmax, ms_events=False, child=False):
         self.name = "C03/hist/start=%d" % start
         self.start = start
         self.kmax = kmax
         self.defs = trxmodel.std_config()
         self.prefix = [(0, "RXTUNE %d" % F2), (0, "TXTUNE %d" % F1), (1, "RXTUNE %d" % F1), (1, "TXTUNE %d" % F2),
                        (1, "POWERON"), (0, "POWERON")]
+        self.tx = 0                 # the transceiver whose queue is exercised
+        if child:
+            # the bursts arrive at a child transceiver of the BTS: it is switched with its parent ("off"/"on")
+            # and on its own ("coff"/"con")
+            self.name = "C03/hist-child/start=%d" % start
+            self.defs = trxmodel.std_config([("C1", 5700, 1)])
+            self.prefix = [(2, "RXTUNE %d" % F2), (2, "TXTUNE %d" % F1)] + self.prefix
+            self.tx = 2
         self.arr = [("arr", d, 1) for d in (-1, 0, 1, 2, 3)] + [("arr", 1, 0)]
         if tier != "quick":
             self.arr += [("arr", 0, 0), ("arr", 2, 0)]
         self.other = [("tick",), ("off",), ("on",), ("fmt", 0), ("fmt", 1)]
         if ms_events:
             self.other += [("msoff",), ("mson",)]
+        if child:
+            self.other = [("tick",), ("off",), ("on",), ("coff",), ("con",)]
+            self.arr = [("arr", d, 1) for d in (0, 1, 2)]
 
     def build(self):
         W = AppWorld(self.defs, clck_start=self.start)
@@ -46,7 +57,7 @@ class Spec:
 
     def events(self, W, hist):
         ev = list(self.other)
-        if len(W.model.trx[0].queue) < self.kmax:
+        if len(W.model.trx[self.tx].queue) < self.kmax:
             ev = self.arr + ev
         return ev
 
@@ -57,8 +68,8 @@ class Spec:
         if k == "arr":
             base = m.fn if m.clock_running else self.start
             fn = (base + ev[1]) % HYPER
-            ver = m.trx[0].ver if ev[2] else 1 - m.trx[0].ver
-            v = W.burst(0, fn, tn=fn % 8, pwr=1, ver=ver)
+            ver = m.trx[self.tx].ver if ev[2] else 1 - m.trx[self.tx].ver
+            v = W.burst(self.tx, fn, tn=fn % 8, pwr=1, ver=ver)
             W.outcome = W.last_id is not None
             return v
         if k == "tick":
@@ -71,6 +82,10 @@ class Spec:
             return W.ctrl(0, "POWEROFF")
         if k == "on":
             return W.ctrl(0, "POWERON")
+        if k == "coff":
+            return W.ctrl(self.tx, "POWEROFF")
+        if k == "con":
+            return W.ctrl(self.tx, "POWERON")
         if k == "msoff":
             return W.ctrl(1, "POWEROFF")
         if k == "mson":
@@ -90,6 +105,9 @@ def run(ctx):
     for start in (0, 2715644):
         spec = Spec(start, ctx.tier, kmax, ms_events=not ctx.quick)
         explore.bfs(ctx, spec, max_depth=depth, label="hist%d" % start)
+    cdepth = 6 if ctx.quick else 8
+    spec = Spec(2715645, ctx.tier, 2, child=True)
+    explore.bfs(ctx, spec, max_depth=cdepth, label="histchild")
     c = ctx.cov
     c["history_depth"] = depth
     c["max_queued"] = kmax
@@ -108,11 +126,11 @@ def replay(ctx, case):
         from vlib.props import c03_sched
         return c03_sched.replay(ctx, case)
     start = int(case["spec"].split("=")[1])
-    spec = Spec(start, "thorough", 9, ms_events=True)
+    spec = Spec(start, "thorough", 9, ms_events=True, child="hist-child" in case["spec"])
     W = spec.build()
     hist = [tuple(e) for e in case["hist"]]
     for k, ev in enumerate(hist):
         v = spec.step(W, ev)
         if v and k == len(hist) - 1:
             for c, m in v:
-                ctx.violation("%s:hist%d_%s" % (ctx.prop, start, c), case, m)
+                ctx.violation("%s:%s_%s" % (ctx.prop, "histchild" if "hist-child" in case["spec"] else "hist%d" % start, c), case, m)
